@@ -662,6 +662,53 @@ func TestC08(t *testing.T) {
 			c.Fail(ev.Sig{"op": "bubble-leak", "suite": "slow-handlers-read-timeout"}, nil, nil, "goroutines left blocked after the scenario ended: %s", leak)
 		}
 	})
+	// one connection that lives long: 70 000 requests (more than any 16-bit counter holds), in
+	// bursts; every one is dispatched, once, in order
+	rec.Suite("long-connection", rec.N(1, 4), func(c *ev.Case) {
+		c.Class("long-connection/messages=70000")
+		leak := runBubbleWD(t, rec, c, 120*time.Second, func() {
+			const total = 70000
+			var mu sync.Mutex
+			next, bad := uint32(1), ""
+			hf := diam.HandlerFunc(func(dc diam.Conn, m *diam.Message) {
+				mu.Lock()
+				if m.Header.HopByHopID != next && bad == "" {
+					bad = fmt.Sprintf("handler saw message %d, expected message %d", m.Header.HopByHopID, next)
+				}
+				next++
+				mu.Unlock()
+			})
+			mc := memnet.NewConn()
+			ln := memnet.NewListener()
+			srv := &diam.Server{Handler: hf, Dict: ctx.Parser}
+			go srv.Serve(ln)
+			ln.Offer(mc)
+			defer func() {
+				mc.FeedEOF()
+				ln.Close()
+				synctest.Wait()
+			}()
+			var burst []byte
+			for s := uint32(1); s <= total; s++ {
+				burst = append(burst, seqMsg(s, []int{0, 12}[s%2])...)
+				if s%1000 == 0 {
+					mc.Feed(burst)
+					burst = burst[:0]
+					synctest.Wait()
+				}
+			}
+			mu.Lock()
+			defer mu.Unlock()
+			if bad != "" || next != total+1 || mc.CloseCount() != 0 {
+				c.Fail(ev.Sig{"op": "lost-or-duplicated", "suite": "long-connection"}, nil, nil, "one connection, %d requests: %d were dispatched (%s), transport closed %d time(s)", total, next-1, bad, mc.CloseCount())
+				return
+			}
+			c.Event("handler_invocations", total)
+		})
+		if leak != "" && !c.Failed() {
+			c.Fail(ev.Sig{"op": "bubble-leak", "suite": "long-connection"}, nil, nil, "goroutines left blocked after the scenario ended: %s", leak)
+		}
+	})
 	rec.Suite("stalled-writer", 12, func(c *ev.Case) {
 		K, size := 2+c.I%3, []int{100, 1500, 5000, 70000}[(c.I/3)%4]
 		c.Class("stalled-writer/K=%d/answer-bytes=%d/mux=%v", K, size, c.I%2 == 0)
